@@ -650,7 +650,7 @@ func c17Check(ineligible []string) func(r *rig) (string, string, string) {
 			return v + "\n" + tr(), "", ""
 		}
 		if g := r.c03Goal(); g != "" {
-			return fmt.Sprintf("C17: %.0f s after the last change the latest version of every eligible file should be delivered and released: %s\n%s", (r.now() - r.lastDev).Seconds(), g, tr()), "", ""
+			return fmt.Sprintf("C17: %.0f s after the last change the latest version of every eligible file should be delivered and released: %s\n%s", (r.now() - r.lastDev).Seconds(), g, tr()+r.treeDump()), "", ""
 		}
 		return "", "", fmt.Sprintf("changes=%d", len(r.changed))
 	}
